@@ -1,5 +1,6 @@
 import OcVerif.Proofs.Queue.Len
 import OcVerif.Proofs.Conc.LenCounter
+import OcVerif.Proofs.Queue.PlainQ
 /-!
 # C03 — work-steal queues neither lose nor duplicate items
 
@@ -83,5 +84,39 @@ theorem C03_len_conc_old_counterexample :
 open Oc.Conc.Len in
 example : Conc.Len.Inv ⟨0, 0, [⟨.idle, [.push, .pop]⟩, ⟨.idle, [.pop, .push]⟩]⟩ := by simp [Conc.Len.Inv, pend]
 example : (run (mk 2 4) [.lpush 0 0 0, .lpush 0 0 1, .lpush 0 0 2, .lpush 0 0 3, .lpop 1 0, .lpop 1 0, .lpop 1 0, .lpush 0 0 4, .gpop]).isSome = true := by decide
+
+/-! ### the plain (priority-less) work-steal queue -/
+section Plain
+open Oc.Queue.Plain
+
+theorem pmk_cnt (n cap : Nat) (x : Item) : (Plain.mk n cap).cnt x = 0 := by
+  simp only [Plain.cnt_def, Plain.mk]
+  have : ∀ n, (List.replicate n ({} : PLocal)).flatMap (fun l => l.items) = [] := by
+    intro n; induction n with
+    | zero => rfl
+    | succ k ih => simp [List.replicate_succ, ih]
+  simp [this]
+
+/-- Plain queue: nothing is lost and nothing is returned twice, after any history of shared/local
+pushes and pops with overflow and stealing. -/
+theorem C03_plain_conservation (n cap : Nat) (ops : List POp) (s : PSys) (outs : List Item)
+    (h : prun (Plain.mk n cap) ops = some (s, outs)) :
+    (ppushedOf ops).Perm (outs ++ s.resident) := by
+  rw [List.perm_iff_count]
+  intro x
+  have := cnt_prun h x
+  rw [pmk_cnt] at this
+  rw [count_append]
+  unfold PSys.cnt at this; omega
+
+/-- Plain queue: the shared length counter equals the number of items the shared queue holds. -/
+theorem C03_plain_len (n cap : Nat) (ops : List POp) (s : PSys) (outs : List Item)
+    (h : prun (Plain.mk n cap) ops = some (s, outs)) : s.slen = s.shared.length :=
+  plen_prun (s := Plain.mk n cap) (by simp [PLenOk, Plain.mk]) h
+
+-- non-vacuity: capacity 2, four local pushes (two spill), a sibling steals, everything comes back once
+example : (prun (Plain.mk 2 2) [.lpush 0 1, .lpush 0 2, .lpush 0 3, .lpush 0 4, .lpop 1 0, .lpop 1 0, .lpop 0 0, .lpop 0 0, .lpop 0 0]).map (·.2) = some [2, 4, 1, 3] := by decide
+
+end Plain
 
 end Oc.Props.C03
